@@ -13,10 +13,21 @@
 (* and the end-to-end form of C03 + C19: what is displayed is, in order,   *)
 (* a part of what was sent; nothing is lost unless Ctrl+O was pressed or   *)
 (* the stream was cancelled; notices are always displayed.                 *)
+(*                                                                         *)
+(* Quit: the operator ends the program (Ctrl+C / Ctrl+D): Shell.Do returns *)
+(* - the terminal takes nothing any more - and the error group cancels     *)
+(* every context.  The broker must still finish (curlrevshell.go waits for *)
+(* Broker.Do), and connect sends its closing notice with a plain blocking  *)
+(* send.  DrainAfterQuit = FALSE is the tree as found: nobody receives     *)
+(* from the operator channel after the shell has returned, so with a full  *)
+(* channel (a shell flooding a slower terminal) the notice is never sent   *)
+(* and the program never exits (Curlrevshell_quit_asfound.cfg: TLC refutes *)
+(* EndsAfterQuit).  DrainAfterQuit = TRUE is the repaired design: what is  *)
+(* still sent after the shell has returned is discarded.                   *)
 (***************************************************************************)
 EXTENDS Naturals, Sequences, FiniteSets, SequencesExt, TLC
 
-CONSTANTS NChunks, QCap, OchCap, Pause, MaxT, MaxEvents, MaxPerTick
+CONSTANTS NChunks, QCap, OchCap, Pause, MaxT, MaxEvents, MaxPerTick, DrainAfterQuit
 
 VARIABLES
   \* BrokerOut
@@ -25,33 +36,54 @@ VARIABLES
   \* Opshell
   now, muted, deadline, everO, nev, inTick, lastShown, firedAt, act,
   \* composition history
-  displayed     \* what reached the terminal's screen: chunk numbers, 0 = notice
+  displayed,    \* what reached the terminal's screen: chunk numbers, 0 = notice
+  quit          \* the operator has ended the program: the terminal takes nothing any more
 
 ovars == <<rpc, rpend, rerr, fpc, hold, endedBy, q, qclosed, och, ctxDone, closed, nread,
            sent, shown, fwd, dropped, logd, selfEnd>>
 tvars == <<now, muted, deadline, everO, nev, inTick, lastShown, firedAt, act>>
-vars == <<ovars, tvars, displayed>>
+vars == <<ovars, tvars, displayed, quit>>
 
 Out == INSTANCE BrokerOut WITH ReaderSelectsCtx <- TRUE, MayOmitNotice <- FALSE
 Op  == INSTANCE Opshell WITH Emit <- FALSE
 
-Init == Out!Init /\ Op!Init /\ displayed = <<>>
+Init == Out!Init /\ Op!Init /\ displayed = <<>> /\ quit = FALSE
 
 (* the terminal takes the next item from the operator channel and handles it *)
 TakeAndShow ==
-  /\ och # <<>>
+  /\ och # <<>> /\ ~quit /\ UNCHANGED quit
   /\ Out!Term
   /\ IF Head(och) = 0
      THEN Op!Status /\ displayed' = Append(displayed, 0)
      ELSE Op!Plain /\ displayed' = IF muted THEN displayed ELSE Append(displayed, Head(och))
 
-BrokerStep == /\ (Out!Reader \/ Out!Forwarder \/ Out!Cancel \/ Out!CloseTransport)
-              /\ UNCHANGED <<tvars, displayed>>
-OperatorStep == /\ (Op!CtrlO \/ Op!TimerFire \/ Op!Tick)
-                /\ UNCHANGED <<ovars, displayed>>
+B(A) == A /\ UNCHANGED <<tvars, displayed, quit>>
+BrokerStep == B(Out!Reader \/ Out!Forwarder \/ Out!Cancel \/ Out!CloseTransport)
+OperatorStep == /\ ~quit /\ (Op!CtrlO \/ Op!TimerFire \/ Op!Tick)
+                /\ UNCHANGED <<ovars, displayed, quit>>
 
-Next == TakeAndShow \/ BrokerStep \/ OperatorStep
+Quit ==
+  /\ ~quit /\ quit' = TRUE
+  /\ IF ctxDone THEN UNCHANGED ovars ELSE Out!Cancel
+  /\ UNCHANGED <<tvars, displayed>>
+
+(* repaired design: what arrives on the operator channel after the shell has returned is thrown away *)
+Discard ==
+  /\ quit /\ DrainAfterQuit /\ och # <<>>
+  /\ och' = Tail(och)
+  /\ UNCHANGED <<rpc, rpend, rerr, fpc, hold, endedBy, q, qclosed, ctxDone, closed, nread,
+                 sent, shown, fwd, dropped, logd, selfEnd, tvars, displayed, quit>>
+
+Next == TakeAndShow \/ BrokerStep \/ OperatorStep \/ Quit \/ Discard
 Spec == Init /\ [][Next]_vars
+Fair ==
+  /\ WF_vars(B(Out!RLoop)) /\ WF_vars(B(Out!RSend)) /\ WF_vars(B(Out!RSendCtx)) /\ WF_vars(B(Out!RExit))
+  /\ WF_vars(B(closed /\ \E d, e \in BOOLEAN : Out!RRead(d, e)))
+  /\ WF_vars(B(Out!FTake)) /\ WF_vars(B(Out!FClosed)) /\ WF_vars(B(Out!FCtx)) /\ WF_vars(B(Out!FFwd))
+  /\ WF_vars(B(Out!FLog)) /\ WF_vars(B(Out!FDrop)) /\ WF_vars(B(Out!FNotice)) /\ WF_vars(B(Out!FRelease))
+  /\ WF_vars(B(fpc = "done" /\ Out!CloseTransport))
+  /\ WF_vars(Discard)
+FairSpec == Spec /\ Fair
 
 Data(s) == SelectSeq(s, LAMBDA x : x # 0)
 RECURSIVE IsSubseq(_, _)
@@ -66,6 +98,10 @@ NothingLostWithoutCtrlO == ~everO => Data(displayed) = Data(shown)
 NoticesAlwaysDisplayed == Len(SelectSeq(displayed, LAMBDA x : x = 0)) = Len(SelectSeq(shown, LAMBDA x : x = 0))
 UnmutedAndUncancelledLosesNothing ==
   (~everO /\ ~ctxDone /\ fpc = "done" /\ och = <<>>) => Data(displayed) = sent
+(* C20 / C04: once the operator has ended the program the output path finishes, however *)
+(* full the operator channel was                                                        *)
+EndsAfterQuit == quit ~> (fpc = "done")
+
 (* the terminal never waits for the broker: it can always take what is there *)
-TerminalIndependent == (och # <<>> /\ nev < MaxEvents /\ inTick < MaxPerTick /\ ~Op!Due /\ firedAt # now /\ ~(muted /\ deadline = now)) => ENABLED TakeAndShow
+TerminalIndependent == (~quit /\ och # <<>> /\ nev < MaxEvents /\ inTick < MaxPerTick /\ ~Op!Due /\ firedAt # now /\ ~(muted /\ deadline = now)) => ENABLED TakeAndShow
 =============================================================================
